@@ -178,6 +178,8 @@ class Gen:
         if sty not in ("ppl_%s_t" % D, "ppl_const_%s_t" % D):
             return False
         mutates = sty == "ppl_%s_t" % D
+        if suffix.startswith("BHZ03_") or suffix.startswith("BGP99_"):
+            return False          # certificate-parameterised powerset widenings: no one-to-one C++ method name
         rest = params[1:]
         tokens = False
         kinds = []
@@ -288,7 +290,7 @@ class Gen:
             for (tag, decl, c, mm, wl) in V:
                 self.w("  { const unsigned DIM = 2; (void) DIM; cif::Watch W; %s %s" % (decl, wl))
                 self.w("    cif::run_new<Dom>(\"%s\", \"%s\", [&](Dom::H* ph) { return %s(ph, %s); }," % (name, tag, name, c))
-                recyc = ", Recycle_Input()" if how == "recycle" else ""
+                recyc = ", Recycle_Input()" if (how == "recycle" and self.D in ("Polyhedron", "Grid")) else ""
                 self.w("      [&]() -> Dom::T* { return new %s(%s%s); }, &W); }" % (T, mm, recyc))
             return True
         # from a friend domain (possibly the same): the friend object is built in C++
